@@ -1,11 +1,11 @@
 SPECIFICATION Spec
 CONSTANTS
-  Ids = {"n1","n2","n3","n4"}
+  Ids = {"n1","n2"}
   Bk <- BkL
   Buckets = {1}
-  IPs = {"l1","l2"}
+  IPs = {"l1"}
   Subnet <- SubL
-  LAN = {"l1","l2"}
+  LAN = {"l1"}
   Seqs = {1}
   BS = 2
   MR = 1
@@ -13,11 +13,10 @@ CONSTANTS
   TIL = 2
   MaxFails = 2
   MinBkt = 1
-  MaxGen = 0
-  MaxChecks = 1
-  Ops = {"add"}
-  Devs = {"EvictOldest"}
+  MaxGen = 2
+  MaxChecks = 2
+  Ops = {"add","delete","reval","track"}
+  Devs = {"StaleByID"}
 VIEW view
-
-PROPERTIES NoEvictionByNewcomer
+PROPERTIES RemovalHasCause
 CHECK_DEADLOCK FALSE
